@@ -33,6 +33,13 @@ pub struct Case {
     /// a host I/O extender that claims only port 0xCCCC is attached: ULA writes are not its business
     #[serde(default)]
     pub extender: bool,
+    /// frames per emulate_frames call (FrameCount(n)): the host sees the border of the last frame of
+    /// each batch only, which must still be right
+    #[serde(default)]
+    pub batch: u8,
+    /// a Kempston joystick interface is present (it has nothing to do with writes to the ULA)
+    #[serde(default)]
+    pub kempston: bool,
 }
 
 const BASE: u16 = 0x8000;
@@ -72,8 +79,14 @@ fn pixel_t(machine: Machine, x: usize, y: usize) -> i64 {
 pub fn check(c: &Case, rec: &mut Rec) -> Result<(), String> {
     let machine = c.machine;
     let frame_len = machine.frame_len() as u64;
-    let mut e = mk_emu(&EmuOpts::new(machine));
+    let mut o = EmuOpts::new(machine);
+    o.kempston = c.kempston;
+    let mut e = mk_emu(&o);
     let mut mem = MemModel::new(machine, mach::rom_images(machine));
+    let batch = (c.batch as u64).clamp(1, 4);
+    if batch > 1 {
+        rec.class("frames-emulated-in-batches");
+    }
     if c.extender {
         e.set_io_extender(crate::host::LoggingExtender::new(vec![(0xFFFF, 0xCCCC)], 0x5A));
         rec.class("io-extender-attached");
@@ -104,7 +117,15 @@ pub fn check(c: &Case, rec: &mut Rec) -> Result<(), String> {
     }
     // emulator frame by frame
     for f in 0..frames {
-        mach::run_frames(&mut e, 1)?;
+        // with batches only the last frame of each emulate_frames call is visible to the host
+        if f % batch == 0 {
+            let n = batch.min(frames - f);
+            e.set_speed(rustzx_core::EmulationMode::FrameCount(n as usize));
+            mach::run_frames(&mut e, 1)?;
+        }
+        if (f + 1) % batch != 0 && f + 1 != frames {
+            continue;
+        }
         // last write at or before the point where the emulator stopped
         let now = (f + 1) * frame_len + e.verif_frame_clocks() as u64;
         let last = writes.iter().filter(|w| w.t_end <= now).last();
@@ -340,7 +361,7 @@ pub fn case_strategy() -> impl Strategy<Value = Case> {
         any::<u32>(),
         2u8..6,
     )
-        .prop_map(|(machine, segs, idle_units, start_t, frames)| Case { machine, segs, idle_units, start_t, frames, extender: start_t % 4 == 0 })
+        .prop_map(|(machine, segs, idle_units, start_t, frames)| Case { machine, segs, idle_units, start_t, frames, extender: start_t % 4 == 0, batch: if start_t % 3 == 0 { 1 + (start_t >> 4) as u8 % 4 } else { 1 }, kempston: start_t % 5 == 0 })
 }
 
 pub fn snap_strategy() -> impl Strategy<Value = SnapCase> {
@@ -365,7 +386,7 @@ pub fn replay(run: &mut Run, phase: &str, case: &serde_json::Value) -> Result<()
 }
 
 pub const LEVEL: &str = "exploration";
-pub const RULE: &str = "case = machine x looping DI program of 1..40 segments (DJNZ delay 0..255 iterations + 0..5 NOPs, then OUT (0xFE),A or OUT (C),A to a generated even port with any value) plus optional long idle so that some frames contain no write, started at a generated frame offset, run for 2..5 judged frames, in a quarter of the cases with a host I/O extender attached that claims an unrelated port; the reference machine executes the same program and timestamps every ULA port write; after each completed frame every one of the 27648 border pixels must show a colour that was current within 8 T-states (16 pixels) of the moment the beam was there (change instant = anywhere inside the I/O cycle), and border_color() must equal the low three bits of the last write; second phase: the border stored in a loaded SNA, or in the border field of an SZX whose port-0xFE field differs, is reported and shown, and a ULA write by the loaded program of the byte the previous program had written last is followed like any other. non-trivial = judged frame with >= 2 colour changes of which >= 1 falls inside the visible border raster (snapshot phase: border differs from the previous one); distinct = hash of (case, frame)";
+pub const RULE: &str = "case = machine x looping DI program of 1..40 segments (DJNZ delay 0..255 iterations + 0..5 NOPs, then OUT (0xFE),A or OUT (C),A to a generated even port with any value) plus optional long idle so that some frames contain no write, started at a generated frame offset, run for 2..5 judged frames, in a quarter of the cases with a host I/O extender attached that claims an unrelated port, in a fifth with a Kempston joystick interface present, in a third with the frames emulated in batches of 2..4 per call (only the last frame of a batch is judged); the reference machine executes the same program and timestamps every ULA port write; after each completed frame every one of the 27648 border pixels must show a colour that was current within 8 T-states (16 pixels) of the moment the beam was there (change instant = anywhere inside the I/O cycle), and border_color() must equal the low three bits of the last write; second phase: the border stored in a loaded SNA, or in the border field of an SZX whose port-0xFE field differs, is reported and shown, and a ULA write by the loaded program of the byte the previous program had written last is followed like any other. non-trivial = judged frame with >= 2 colour changes of which >= 1 falls inside the visible border raster (snapshot phase: border differs from the previous one); distinct = hash of (case, frame)";
 pub const ASSUMPTIONS: &[&str] = &[
     "write timestamps come from the reference machine (reference Z80 + contention model), trusted through calibration, C03 and C04",
     "border buffer geometry: 320x240, pixel (x,y) at T = first-picture-pixel T + (y-24)*line + (x-32)/2 (property text); the central 256x192 area is not judged; the colour before the first write of a run is not judged",
